@@ -227,11 +227,13 @@ impl WriteHalf for WHalf {
                     if let Some(m) = msg.clone() {
                         g.written.push((member.clone(), m));
                     }
-                    g.wtime.insert(member.clone(), Instant::now());
                     Poll::Pending
                 }
                 Some(WAns::LateDone) => {
+                    // the method timeout covers the wait for the reply, which starts when send() has returned: the clock of
+                    // this call starts now, not when the bytes went out
                     g.ev.push(format!("w{}", n));
+                    g.wtime.insert(member.clone(), Instant::now());
                     Poll::Ready(Ok(len))
                 }
                 _ => {
